@@ -87,6 +87,11 @@ package godi
 //@        && callarg("scope.disposablesMu.Lock", 0, 0) == s && callarg("scope.instancesMu.Lock", 0, 0) == s && callarg("scope.childrenMu.Lock", 0, 0) == s
 //@        && (s.parentScope != nil ==> callarg("scope.childrenMu.Lock", 1, 0) == s.parentScope) && (s.rootProvider != nil ==> callarg("provider.scopesMu.Lock", 0, 0) == s.rootProvider)
 //@   ensures[C14] cancel_called: won && s.cancel != nil ==> ncalls("field:scope.cancel") == 1 && callarg("field:scope.cancel", 0, 0) == s.cancel
+// cancelling the scope's context is what wakes the watcher goroutine of every child whose context derives from it (CreateScope(nil)); a watcher
+// that wins the race for its child's Close makes this loop's own call a no-op that returns at once. So the context is cancelled only after
+// the children have been closed by this call: C11 'all descendant scopes are completely disposed before their parent disposes its own instances'
+//@   ensures[C11,C12,C10] own_context_cancelled_after_the_children_are_closed: won && s.cancel != nil ==>
+//@        (forall i int :: 0 <= i && i < ncalls("scope.Close") ==> calltime("scope.Close", i) < calltime("field:scope.cancel", 0))
 //@   ensures[C13,C10] cascade: won ==> ncalls("scope.Close") == len(kids) && (forall i int :: 0 <= i && i < len(kids) ==> callarg("scope.Close", i, 0) == kids[i])
 //@   ensures[C10,C12] every_disposable_closed_once: won ==> ncalls("closeDisposable") == len(snap)
 //@        && (forall i int :: 0 <= i && i < len(snap) ==> callarg("closeDisposable", i, 0) == snap[len(snap) - 1 - i])
